@@ -52,7 +52,7 @@ func renderInto(img draw.Image, rect image.Rectangle, op draw.Op, t []string) {
 	z.DrawOp = op
 	r := &render.Renderer{}
 	r.SetRasterizer(z, rect)
-	playRenderer(r, t)
+	playRendererOn(r, z, t)
 }
 
 func subImagePix(img draw.Image, r image.Rectangle) []byte {
@@ -147,7 +147,7 @@ func init() {
 		rec := &opRecorder{}
 		r := &render.Renderer{}
 		r.SetRasterizer(rec, image.Rect(0, 0, w, h))
-		playRenderer(r, t)
+		playRendererOn(r, rec, t)
 		want := newImage(kind, w, h)
 		fillPattern(want, 0, 0)
 		var vz vector.Rasterizer
